@@ -66,6 +66,8 @@ class RequestDatagram(KademliaDatagramBase):
     def __init__(self, packet_type: int, rpc_id: bytes, node_id: bytes, method: bytes,
                  args: typing.Optional[typing.List] = None):
         super().__init__(packet_type, rpc_id, node_id)
+        if args is not None and not isinstance(args, list):
+            raise ValueError(f"invalid request arguments: expected a list, got {type(args)}")
         self.method = method
         self.args = args or []
         if not self.args:
